@@ -138,19 +138,6 @@ theorem nextBar_eq (s : EfficiencyRatio F) (b : Bar F) : s.nextBar b = s.next b.
   unfold nextBar
   cases h : s.next b.close <;> simp
 
-/-- `reset` rebuilds exactly the state `new` builds (state equality: any history, any values) -/
-theorem reset_eq (s : EfficiencyRatio F) (h : WF s) : s.reset = some (fresh s.period) := by
-  unfold reset
-  simp [fill_all _ _ _ h.size, fresh]
-
 theorem period_fn_eq (s : EfficiencyRatio F) : s.period_fn = s.period := rfl
-
-theorem display_eq (fmt : F → String) (s : EfficiencyRatio F) :
-    display fmt s = "ER(" ++ toString s.period ++ ")" := rfl
-
-theorem default_eq : (default_ : Option (EfficiencyRatio F)) = some (fresh 14) := by
-  unfold default_
-  rw [new_eq]
-  simp [unwrap, isizeMax]
 
 end TaRs.Gen.EfficiencyRatio
